@@ -14,11 +14,12 @@ Local Open Scope N_scope.
 (* ---------------------------------------------------------------- Content-Length is truthful *)
 (* [cl_inv r]: every Content-Length header present in r is str(number of bytes r will yield), and a
    response whose body is an unconsumed iterator has none.  It holds after the constructor (when the
-   caller's own header list has no Content-Length: [wf_args]) and after EVERY sequence of body, text,
+   caller's own header list has no Content-Length: [wf_args]) and after EVERY sequence (without a
+   hand-written r.content_length = n: [raw_edit], see C02_cl_inv_after_reset for those) of body, text,
    write, app_iter, body_file, encode_content (lazy or eager), decode_content, md5_etag, copy (followed on
    either side), charset, content_type, status, Location mutations and WSGI calls. *)
 Theorem C02_cl_inv : forall gz gunzip inflate md5b64 uj c a ops r,
-  wf_args a -> mk c a = Ok r ->
+  wf_args a -> mk c a = Ok r -> Forall (fun o => ~ raw_edit o) ops ->
   cl_inv (run_ops gz gunzip inflate md5b64 uj c ops r).
 Proof. exact cl_inv_history. Qed.
 Print Assumptions C02_cl_inv.
@@ -30,14 +31,47 @@ Proof. reflexivity. Qed.
 (* each single step preserves it, from ANY state that satisfies it (so also for histories that start
    from a response obtained otherwise) *)
 Theorem C02_cl_inv_step : forall gz gunzip inflate md5b64 uj c r o,
-  cl_inv r -> cl_inv (fst (step gz gunzip inflate md5b64 uj c r o)).
+  ~ raw_edit o -> cl_inv r -> cl_inv (fst (step gz gunzip inflate md5b64 uj c r o)).
 Proof. exact step_inv. Qed.
 Print Assumptions C02_cl_inv_step.
+
+(* A Content-Length written by hand ([raw_edit]: r.content_length = n, the constructor's content_length=,
+   or one inside the caller's header list) may be wrong -- but the next body mutation that replaces the
+   body (body / del body / app_iter / body_file / del app_iter: [resetting]) makes it right again:
+   from ANY state r0 whatsoever, list, tuple or iterator body, with any Content-Length headers *)
+Theorem C02_cl_inv_after_reset : forall gz gunzip inflate md5b64 uj c r0 o ops,
+  resetting o -> Forall (fun o => ~ raw_edit o) ops ->
+  cl_inv (run_ops gz gunzip inflate md5b64 uj c ops (fst (step gz gunzip inflate md5b64 uj c r0 o))).
+Proof. exact run_inv_after_reset. Qed.
+Print Assumptions C02_cl_inv_after_reset.
+
+Example C02_resetting_satisfiable :
+  resetting (OSetAppIter (AIter true [[97]; []; [98; 99]])) /\ raw_edit (OSetContentLength (Some 7)) /\
+  Forall (fun o => ~ raw_edit o) [OWrite [100]; OEncode true true; OCopy true; OSetContentLength None; OCall false].
+Proof. split; [exact I|]. split; [exact I|]. repeat constructor; intros []. Qed.
+
+(* likewise a gzip encode that really encodes, and a text assignment that succeeds *)
+Theorem C02_encode_resets : forall gz gunzip inflate l r, not_gzip r ->
+  cl_inv (fst (encode_content gz gunzip inflate true l r)).
+Proof. exact encode_resets. Qed.
+Print Assumptions C02_encode_resets.
+
+Theorem C02_set_text_resets : forall t r r0, set_text t r = (r0, None) -> cl_inv r0.
+Proof. exact set_text_resets. Qed.
+Print Assumptions C02_set_text_resets.
+
+Theorem C02_wire_length_after_reset : forall gz gunzip inflate md5b64 uj c r0 o ops,
+  resetting o -> Forall (fun o => ~ raw_edit o) ops ->
+  let k := call uj false (run_ops gz gunzip inflate md5b64 uj c ops (fst (step gz gunzip inflate md5b64 uj c r0 o))) in
+  forall st hl, In (st, hl) (sr_calls k) ->
+    Forall (fun v => v = dec (blen (List.concat (yielded k)))) (clvals hl).
+Proof. exact wire_after_reset. Qed.
+Print Assumptions C02_wire_length_after_reset.
 
 (* the same statement at the WSGI boundary: after any history, every Content-Length value handed to
    start_response equals the number of bytes the returned iterable yields for a GET *)
 Theorem C02_wire_length : forall gz gunzip inflate md5b64 uj c a ops r,
-  wf_args a -> mk c a = Ok r ->
+  wf_args a -> mk c a = Ok r -> Forall (fun o => ~ raw_edit o) ops ->
   let k := call uj false (run_ops gz gunzip inflate md5b64 uj c ops r) in
   forall st hl, In (st, hl) (sr_calls k) ->
     Forall (fun v => v = dec (blen (List.concat (yielded k)))) (clvals hl).
